@@ -193,7 +193,14 @@ class C07(Cfg):
                                 break
                     for lst in [c["aedges"], c["authedges"]] + [au[k2] for au in c["auths"] for k2 in ("redges", "uedges", "uaedges")]:
                         for e in lst: accepted_edges.add((e["src"], e["se"], e["l"], e["dst"], e["c"], e["by"]))
+                    was_tainted = tainted.get(room)
                     self._accepted(fail, specs, placed, room, c)
+                    if was_tainted:
+                        # the stored lists already differ from the accepted ones (an accepted placing defect):
+                        # what follows from that is reported under the same signature
+                        for i in range(n0, len(res)):
+                            if res[i][0] in ("entry-altered", "entry-by-unentitled-author"):
+                                res[i] = (was_tainted, res[i][1] + " (follow-up of an accepted placing defect)")
                     for sig, _ in res[n0:]:
                         if sig in ("placing-reference-label", "replayed-entry", "placing-reference-author"):
                             tainted.setdefault(room, sig)
